@@ -237,14 +237,59 @@ Qed.
 
 (* tree building: whatever order the second loop of build_namespace_tree visits namespace_index in, and whatever
    order the parent's set is iterated in, every namespace gets the same SET of children *)
-Lemma nested_perm e1 e2 I p : Permutation (nested e1 I p) (nested e2 I p).
+(* Python's list-of-str comparison is a total, transitive, antisymmetric order *)
+Lemma strs_leb_total a : forall b, strs_leb a b = true \/ strs_leb b a = true.
 Proof.
-  unfold nested, loop2_order. apply shuffle_perm2, filter_perm, shuffle_perm2, Permutation_refl.
+  induction a as [|x a IH]; intros [|y b]; cbn; auto.
+  destruct (str_eqb_spec x y) as [->|E].
+  - rewrite str_eqb_refl. apply IH.
+  - destruct (str_eqb_spec y x) as [E'|E']; [congruence|]. apply str_leb_total.
 Qed.
 
-Lemma nested_children e I p c : In c (nested e I p) <-> In c (ns_index I) /\ is_child p c = true.
+Lemma strs_leb_antisym a : forall b, strs_leb a b = true -> strs_leb b a = true -> a = b.
 Proof.
-  unfold nested, loop2_order. split.
+  induction a as [|x a IH]; intros [|y b]; cbn; auto; try discriminate.
+  destruct (str_eqb_spec x y) as [->|E].
+  - rewrite str_eqb_refl. intros H1 H2. f_equal. apply IH; assumption.
+  - destruct (str_eqb_spec y x) as [E'|E']; [congruence|].
+    intros H1 H2. exfalso. apply E. apply str_leb_antisym; assumption.
+Qed.
+
+Lemma strs_leb_trans a : forall b c, strs_leb a b = true -> strs_leb b c = true -> strs_leb a c = true.
+Proof.
+  induction a as [|x a IH]; intros [|y b] [|z c]; cbn; auto; try discriminate.
+  destruct (str_eqb_spec x y) as [E1|E1]; destruct (str_eqb_spec y z) as [E2|E2];
+    destruct (str_eqb_spec x z) as [E3|E3]; intros H1 H2; try congruence.
+  - eapply IH; eassumption.
+  - exfalso. apply E1. apply str_leb_antisym; [exact H1|]. rewrite E3. exact H2.
+  - eapply str_leb_trans; eassumption.
+Qed.
+
+Lemma ns_sort_canonical l1 l2 : Permutation l1 l2 -> gsort strs_leb l1 = gsort strs_leb l2.
+Proof. apply gsort_canonical; [intros a b; apply strs_leb_total | intros a b c; apply strs_leb_trans | intros a b; apply strs_leb_antisym]. Qed.
+
+Lemma nested_raw_perm (e1 e2 : env) I p :
+  Permutation (e_shuffle e1 _ (site_no SetNestedIter) ns_str (filter (is_child p) (loop2_order e1 I)))
+              (e_shuffle e2 _ (site_no SetNestedIter) ns_str (filter (is_child p) (loop2_order e2 I))).
+Proof. unfold loop2_order. apply shuffle_perm2, filter_perm, shuffle_perm2, Permutation_refl. Qed.
+
+Lemma nested_perm sf e1 e2 I p : Permutation (nested sf e1 I p) (nested sf e2 I p).
+Proof.
+  unfold nested. destruct (sf_nested_sorted sf); [|apply nested_raw_perm].
+  eapply perm_trans; [apply Permutation_sym, gsort_perm|]. eapply perm_trans; [apply nested_raw_perm|apply gsort_perm].
+Qed.
+
+(* get_nested_namespaces() sorted by the namespace name: the SAME LIST in every environment *)
+Lemma nested_env_indep sf e1 e2 I p : sf_nested_sorted sf = true -> nested sf e1 I p = nested sf e2 I p.
+Proof. intros H. unfold nested. rewrite H. apply ns_sort_canonical, nested_raw_perm. Qed.
+
+Lemma nested_children sf e I p c : In c (nested sf e I p) <-> In c (ns_index I) /\ is_child p c = true.
+Proof.
+  assert (R : forall x, In x (nested sf e I p) <->
+                        In x (e_shuffle e _ (site_no SetNestedIter) ns_str (filter (is_child p) (loop2_order e I)))).
+  { intros x. unfold nested. destruct (sf_nested_sorted sf); [|reflexivity].
+    split; intros H; (eapply Permutation_in; [|exact H]); [apply Permutation_sym, gsort_perm | apply gsort_perm]. }
+  rewrite R. unfold loop2_order. split.
   - intros H. eapply Permutation_in in H; [|apply Permutation_sym, e_shuffle_perm].
     apply filter_In in H as [H Hc]. split; [|exact Hc].
     eapply Permutation_in; [apply Permutation_sym, e_shuffle_perm|exact H].
@@ -253,16 +298,31 @@ Proof.
 Qed.
 
 (* generation order: the same multiset of items whatever the hash order *)
-Lemma walk_perm e1 e2 I g fuel : forall n, Permutation (walk fuel e1 I g n) (walk fuel e2 I g n).
+Lemma walk_perm sf e1 e2 I g fuel : forall n, Permutation (walk sf fuel e1 I g n) (walk sf fuel e2 I g n).
 Proof.
   induction fuel as [|f IH]; intros n; cbn [walk]; [constructor|].
   apply Permutation_app_head, Permutation_app_head.
   apply flat_map_perm2; [apply nested_perm|exact IH].
 Qed.
 
-Lemma gen_order_perm e1 e2 c I : Permutation (gen_order e1 c I) (gen_order e2 c I).
+Lemma gen_order_perm sf e1 e2 c I : Permutation (gen_order sf e1 c I) (gen_order sf e2 c I).
 Proof.
   unfold gen_order. apply Permutation_app_head. destruct (root_of I); [apply walk_perm|constructor].
+Qed.
+
+(* ... and, with get_nested_namespaces() sorted, the same SEQUENCE: the order in which files are generated is itself
+   independent of the environment (what 9b93945 established) *)
+Lemma walk_env_indep sf e1 e2 I g fuel : sf_nested_sorted sf = true ->
+  forall n, walk sf fuel e1 I g n = walk sf fuel e2 I g n.
+Proof.
+  intros H. induction fuel as [|f IH]; intros n; cbn [walk]; [reflexivity|].
+  rewrite (nested_env_indep sf e1 e2 I n H). do 2 f_equal.
+  apply flat_map_ext. exact IH.
+Qed.
+
+Theorem gen_order_env_indep sf e1 e2 c I : sf_nested_sorted sf = true -> gen_order sf e1 c I = gen_order sf e2 c I.
+Proof.
+  intros H. unfold gen_order. f_equal. destruct (root_of I); [apply walk_env_indep; exact H|reflexivity].
 Qed.
 
 (* _bfs_search_for_output_path iterates _nested_namespaces too, but only to look a type up in the per-namespace
@@ -612,8 +672,8 @@ Definition tbl_nsiter : list site :=
   [ {| s_lang := LPy; s_group := GNs; s_kind := KNsIter; s_gated := false; s_line := 1 |} ].
 Theorem unsorted_namespace_iteration_refuted :
   exists I e1 e2 p,
-    files _ facts_all_true tbl_nsiter render0 e1 (mk_cfg LPy false) I p
-    <> files _ facts_all_true tbl_nsiter render0 e2 (mk_cfg LPy false) I p.
+    files _ facts_nested_unsorted tbl_nsiter render0 e1 (mk_cfg LPy false) I p
+    <> files _ facts_nested_unsorted tbl_nsiter render0 e2 (mk_cfg LPy false) I p.
 Proof. exists ex_inputs, env_a, env_c, (item_path (mk_cfg LPy false) (INs [[110; 115]])). vm_compute. discriminate. Qed.
 
 (* the HTML natural sort without tie-breaker (F-HTML-NATSORT-TIE, fixed in /repo): sibling namespaces u7 / u07 tie, the
@@ -665,7 +725,7 @@ Proof.
 Qed.
 
 Lemma ex_orders_differ :
-  gen_order env_a (mk_cfg LPy false) ex_inputs <> gen_order env_c (mk_cfg LPy false) ex_inputs.
+  gen_order facts_nested_unsorted env_a (mk_cfg LPy false) ex_inputs <> gen_order facts_nested_unsorted env_c (mk_cfg LPy false) ex_inputs.
 Proof. vm_compute. discriminate. Qed.
 
 Lemma ex_sorted_include_list :
